@@ -75,6 +75,8 @@ type Fix struct {
 	Opts world.Options
 	// Battery: record Info() and the query battery after every commit in all traces.
 	Battery bool
+	// OnCommit, if set, is called on the reference node after every commit.
+	OnCommit func(w *world.World, block int, names []string)
 }
 
 func NewFix() *Fix {
@@ -447,7 +449,17 @@ func (f *Fix) RunReference(p Plan, tmpl []Template) (History, Trace, *world.Worl
 				downtimeLeft--
 			}
 			return dt, absent, ev
-		}, Hooks{Battery: f.Battery})
+		}, Hooks{Battery: f.Battery, AfterCommit: func(w *world.World, k int) {
+			if f.OnCommit != nil {
+				var names []string
+				if k < len(p.Blocks) {
+					for _, ti := range p.Blocks[k] {
+						names = append(names, tmpl[ti].Name)
+					}
+				}
+				f.OnCommit(w, k, names)
+			}
+		}})
 	return History{Name: p.Name, Blocks: blocks}, tr, w
 }
 
